@@ -328,11 +328,38 @@ func edgeAlwaysLeadsTo(f *ssa.Function, cond func(v ssa.Value) bool, truth bool,
 				return isReturn(i) || !sc.Dominates(i.Block())
 			}
 			if m := reach(f, first, leaves, target, nil); m != nil && miss == nil {
+				// the region only assigns a local that the merge point collects: a boolean φ that takes the
+				// constant true over an edge out of the region is "the flag is set" written with a local
+				if target != nil && phiTrueFrom(m.Block(), sc) && target(phiMarker{}) {
+					continue
+				}
 				miss = m
 			}
 		}
 	}
 	return
+}
+
+// phiMarker is handed to a target predicate to ask "does a boolean local that becomes true count as the target?".
+type phiMarker struct{ ssa.Instruction }
+
+// phiTrueFrom: block m starts with a boolean φ that receives the constant true from a predecessor inside the
+// region dominated by sc.
+func phiTrueFrom(m, sc *ssa.BasicBlock) bool {
+	for _, ins := range m.Instrs {
+		phi, ok := ins.(*ssa.Phi)
+		if !ok {
+			break
+		}
+		for i, e := range phi.Edges {
+			if i < len(m.Preds) && sc.Dominates(m.Preds[i]) {
+				if c, ok := e.(*ssa.Const); ok && c.Value != nil && c.Value.String() == "true" {
+					return true
+				}
+			}
+		}
+	}
+	return false
 }
 
 func callNamed(names ...string) instrPred {
@@ -395,20 +422,23 @@ func ruleFirstMessageAnyType(w *World, r *Report, prop, rule string) {
 		if !ok {
 			continue
 		}
+		// what looks INTO the datagram: indexing / slicing it, or handing it to a function that is not the
+		// dispatcher (logging it, taking its length or storing it decides nothing)
 		switch x := ref.(type) {
-		case *ssa.BinOp:
-			// buf != nil / buf == nil
-			if isNilConst(x.X) || isNilConst(x.Y) {
-				continue
-			}
+		case *ssa.IndexAddr, *ssa.Slice, *ssa.Lookup:
 		case ssa.CallInstruction:
 			if staticCallee(x) == h {
 				continue
 			}
-			if b, ok := x.Common().Value.(*ssa.Builtin); ok && b.Name() == "len" {
+			if _, ok := x.Common().Value.(*ssa.Builtin); ok {
 				continue
 			}
-		case *ssa.Phi, *ssa.Store, *ssa.MakeClosure, *ssa.DebugRef:
+			if g := staticCallee(x); g != nil && g.Pkg != nil {
+				if pp := g.Pkg.Pkg.Path(); strings.Contains(pp, "logger") || strings.Contains(pp, "zap") || pp == "fmt" || pp == "encoding/hex" {
+					continue
+				}
+			}
+		default:
 			continue
 		}
 		dom := false
@@ -442,8 +472,34 @@ func rulePeerKeyIsSourceAddr(w *World, r *Report, prop, rule string) {
 			addr := args[2]
 			ok := false
 			how := symOf(addr).String()
-			if call, isCall := addr.(*ssa.Call); isCall && call.Call.IsInvoke() && call.Call.Method.Name() == "String" {
-				if ex, isEx := call.Call.Value.(*ssa.Extract); isEx {
+			if call, isCall := addr.(*ssa.Call); isCall && call.Common().Method != nil || isCall && staticCallee(call) != nil {
+				var recv ssa.Value
+				if call.Call.IsInvoke() && call.Call.Method.Name() == "String" {
+					recv = call.Call.Value
+				} else if g := staticCallee(call); g != nil && g.Name() == "String" && len(call.Call.Args) == 1 {
+					recv = call.Call.Args[0]
+				}
+				// through an assertion to the concrete address type
+				for d := 0; d < 4 && recv != nil; d++ {
+					switch y := recv.(type) {
+					case *ssa.TypeAssert:
+						recv = y.X
+						continue
+					case *ssa.ChangeInterface:
+						recv = y.X
+						continue
+					case *ssa.MakeInterface:
+						recv = y.X
+						continue
+					case *ssa.Extract:
+						if _, isTA := y.Tuple.(*ssa.TypeAssert); isTA {
+							recv = y.Tuple.(*ssa.TypeAssert).X
+							continue
+						}
+					}
+					break
+				}
+				if ex, isEx := recv.(*ssa.Extract); isEx {
 					if src, isC := ex.Tuple.(*ssa.Call); isC && callNamed("ReadFrom")(src) {
 						ok = true
 					}
@@ -736,6 +792,9 @@ func ruleApplyActionFirstOctet(w *World, r *Report, prop, rule string) {
 func ruleSndemIndependentOfOrder(w *World, r *Report, prop, rule string) {
 	f := w.Fn(prop, "pfcpiface.(*far).parseFAR")
 	setsFlag := func(i ssa.Instruction) bool {
+		if _, ok := i.(phiMarker); ok {
+			return true // the flag collected in a local and stored once (R14.3 checks that store)
+		}
 		st, ok := i.(*ssa.Store)
 		return ok && loadsFieldAddr(st.Addr, "sendEndMarker")
 	}
